@@ -2,7 +2,9 @@
 C05 — the property as an executable predicate over what was OBSERVED of one run of the real engine
 (harness/cmd/c05): the fault plan (input line) and the observation line. Nothing here looks at the model.
 
-  terminates        Engine.Run returned (no `runhang`, no crash) and Engine.Wait returned (`wait=ok`),
+  terminates        Engine.Run returned (no `runhang`, no crash) and Engine.Wait returned (`wait=ok`) - and not before
+                    everything the engine had started was over: no call of a provider, aggregator, gun (factory, `Bind`,
+                    `WarmUp`, `Shoot`, `Close`) or schedule factory is still in progress at that moment (`busy=0`) -,
                     no goroutine of the run is left (`leak=0`)
   no swallowed err  `res=ok` only if no mock component of any pool returned an error or panicked in this run
                     (unless the caller cancelled)
@@ -68,6 +70,7 @@ structure Obs where
   canc : Bool
   lat : String
   wait : String
+  busy : Nat := 0
   leak : Nat
   eng : List String
   engc : String
@@ -112,7 +115,7 @@ def parseObs (n : Nat) (impl : String) : Option Obs := do
            gcl := (lookup kv s!"p{i}.gcl").map (· == "1"), gwu := (lookup kv s!"p{i}.gwu").map (· == "1"), icl := (lookup kv s!"p{i}.icl").map (· == "1"),
            srvopen := getN? kv s!"p{i}.srvopen" : PoolObs }
   pure { res := res, canc := getS kv "canc" == "1", lat := getS kv "lat" "-", wait := getS kv "wait",
-         leak := (getN? kv "leak").getD 0, eng := dashList (getS kv "eng" "-"), engc := getS kv "engc",
+         busy := (getN? kv "busy").getD 0, leak := (getN? kv "leak").getD 0, eng := dashList (getS kv "eng" "-"), engc := getS kv "engc",
          sup := getS kv "sup" "-", pools := pools, cli := (lookup kv "cli").map dashList,
          csig := getS kv "csig" == "1" || getS kv "csig" == "2", csig2 := getS kv "csig" == "2", blk := lookup kv "blk" }
 
@@ -191,6 +194,7 @@ def verdict (pl : Plan) (o : Obs) : String :=
   else if o.res.startsWith "other" then s!"fail:spurious-failure:the run failed with {o.res.take 70} although no component error has this text"
   else if o.res == "runhang" then "fail:run-hang:Engine.Run did not return"
   else if o.wait != "ok" then s!"fail:wait-hang:Engine.Wait did not return after res={o.res.take 40}"
+  else if o.busy != 0 then s!"fail:wait-early:Engine.Wait returned while {o.busy} calls of components the engine had started were still in progress"
   else if o.leak != 0 then s!"fail:goroutine-leak:{o.leak} goroutines left after Engine.Wait returned"
   else
     let swallowed : Option String :=
